@@ -270,6 +270,10 @@ def legacy_run(c):
     for n in names:
         c.eq(f'{n}:empty_first_call:split_run_same_chain', r5[n].samples, r1[n].samples)
         c.eq(f'{n}:warmup_only_first_call:split_run_same_chain', r6[n].samples, r3[n].samples)
+    # warm-up only, then an EMPTY call, then sampling: still the chain of sample(2, Nb=1) (the empty call must not drop the stored warm-up state)
+    G7, _ = mk(); G7.sample(0, 1); G7.sample(0); r7 = G7.sample(2)
+    for n in names:
+        c.eq(f'{n}:warmup_only_then_empty_call:split_run_same_chain', r7[n].samples, r3[n].samples)
 
 
 def sampler_objects(c, case):
